@@ -9,7 +9,11 @@ package main
 // positions) and core Lean only.
 //
 // Parts: go2lean.go (configuration, loading, type mapping, emission),
-// go2lean_expr.go (expressions), go2lean_stmt.go (statements and functions).
+// go2lean_expr.go (expressions), go2lean_stmt.go (statements and functions),
+// go2lean_ptr.go (pointers that are only read, nil-free slices, promoted
+// members, field primitives), go2lean_map.go (read-only maps),
+// go2lean_inout.go (in-out parameters, map writes, primitives that swallow
+// arguments); ratessrc.go / headersrc.go are configurations that use them.
 //
 // HOW TO USE IT FOR ANOTHER PACKAGE (numsrc.go is the worked example,
 // testdata/g2l + go2lean_test.go the fixture for everything num does not need):
@@ -79,12 +83,14 @@ type G2LStruct struct {
 	Emit     bool              // emit `structure Lean where …` from the Go declaration
 	Fields   map[string]string // Go field → Lean field; identity when absent
 	Deriving []string          // for emitted structures
+	AnyOrder bool              // mapped structure: its fields may come in another order than the Go fields (go2lean_ptr.go)
 }
 
 // G2LFunc names one function ("Func") or method ("Recv.Method") to translate.
 type G2LFunc struct {
-	Name string
-	Fuel []string // one Lean term per condition-controlled loop, in source order
+	Name  string
+	Fuel  []string // one Lean term per condition-controlled loop, in source order
+	InOut []string // receiver / pointer parameters the function writes through: returned as extra results (go2lean_inout.go)
 }
 
 // G2LConfig is the input of the translator.
@@ -104,6 +110,9 @@ type G2LConfig struct {
 	Stubs     map[string]string    // import path → Go source of a stub package (bodiless functions, constants)
 	Funcs     []G2LFunc
 	Vars      []string // package-level variables (never assigned after initialisation) to emit as definitions
+
+	NonNilElems []string // slice types ("[]*T") assumed to hold no nil: List T, elements as pointees (go2lean_ptr.go)
+	Maps        bool     // read-only maps as association lists (go2lean_map.go)
 }
 
 var g2lBasicDefault = map[string]string{
@@ -153,6 +162,7 @@ type g2l struct {
 
 	units map[string]*g2lUnit
 	order []string // keys in request order
+	x     g2lExt   // state of go2lean_ptr.go / go2lean_map.go
 }
 
 type g2lNatSub struct {
@@ -349,7 +359,11 @@ func (g *g2l) leanType(t types.Type) (string, error) {
 			return s.Lean, nil
 		}
 		if l, ok := g.cfg.Named[k]; ok {
+			g.noteNamed(k, tt)
 			return l, nil
+		}
+		if m := g2lMapOf(tt); m != nil && g.cfg.Maps {
+			return g.leanMap(m)
 		}
 		if _, ok := tt.Underlying().(*types.Basic); ok {
 			// a named basic type without methods of interest: its underlying type
@@ -365,17 +379,19 @@ func (g *g2l) leanType(t types.Type) (string, error) {
 		}
 		return "Option " + g2lPar(e), nil
 	case *types.Slice:
-		e, err := g.leanType(tt.Elem())
+		e, err := g.leanElem(tt, tt.Elem())
 		if err != nil {
 			return "", err
 		}
 		return "List " + g2lPar(e), nil
 	case *types.Array:
-		e, err := g.leanType(tt.Elem())
+		e, err := g.leanElem(tt, tt.Elem())
 		if err != nil {
 			return "", err
 		}
 		return "List " + g2lPar(e), nil
+	case *types.Map:
+		return g.leanMap(tt)
 	case *types.Tuple:
 		var parts []string
 		for i := 0; i < tt.Len(); i++ {
@@ -424,6 +440,9 @@ func (g *g2l) zero(t types.Type) (string, error) {
 		}
 		return g.structLit(n, map[string]string{})
 	}
+	if z, ok := g.zeroOther(t, lt); ok {
+		return z, nil
+	}
 	return "", fmt.Errorf("no zero value for %s", g.typeKey(t))
 }
 
@@ -450,8 +469,8 @@ func (g *g2l) structFields(n *types.Named) ([]g2lField, G2LStruct, error) {
 			ln = m
 		}
 		lt, err := g.leanType(f.Type())
-		if err != nil || f.Embedded() {
-			lt = ""
+		if err != nil || f.Embedded() || ln == "-" {
+			lt = "" // "-" in G2LStruct.Fields: left out on purpose
 		}
 		gt := g.typeKey(f.Type())
 		if strings.Contains(gt, "invalid type") {
@@ -704,7 +723,7 @@ func (g *g2l) structOrder() []string {
 			return
 		}
 		done[k] = 1
-		if obj, _ := g.pkg.Scope().Lookup(k).(*types.TypeName); obj != nil {
+		if obj := g.lookupType(k); obj != nil {
 			if st, ok := obj.Type().Underlying().(*types.Struct); ok {
 				acc := map[string]bool{}
 				for i := 0; i < st.NumFields(); i++ {
@@ -732,6 +751,7 @@ func (g *g2l) emit(sorted []string) string {
 	w := func(format string, a ...any) { fmt.Fprintf(&sb, format, a...) }
 	w("/-\n  %s\n\n", cfg.Title)
 	sb.WriteString(g2lHeader)
+	sb.WriteString(g.headerExtra())
 	w("-/\n")
 	for _, im := range cfg.Imports {
 		w("import %s\n", im)
@@ -744,7 +764,7 @@ func (g *g2l) emit(sorted []string) string {
 	w("\n/-! ## Go struct declarations (facts) and their Lean representation -/\n\n")
 	for _, k := range g.structOrder() {
 		sm := cfg.Structs[k]
-		obj, _ := g.pkg.Scope().Lookup(k).(*types.TypeName)
+		obj := g.lookupType(k)
 		var n *types.Named
 		if obj != nil {
 			n, _ = obj.Type().(*types.Named)
@@ -783,6 +803,8 @@ func (g *g2l) emit(sorted []string) string {
 			if len(sm.Deriving) > 0 {
 				w("deriving %s\n", strings.Join(sm.Deriving, ", "))
 			}
+		} else if sm.AnyOrder {
+			w("%s", g2lMappingCheckAnyOrder(sm.Lean, k, fs))
 		} else {
 			// the mapped structure must have exactly these fields, with these types, in this order
 			var xs, ys, bind, tys []string
@@ -845,7 +867,9 @@ func (g *g2l) emit(sorted []string) string {
 		}
 		w("\n  (%s, %s, %s)", leanStr(s.fn), leanStr(s.expr), leanStrList(s.guards))
 	}
-	w("]\n\nend %s\n", cfg.Namespace)
+	w("]\n\n")
+	g.emitExtra(w, ok)
+	w("end %s\n", cfg.Namespace)
 	return sb.String()
 }
 
